@@ -1061,7 +1061,14 @@ func c13RunCase(c *Case, rng *Rng, init map[int]c13Obj, initTok string, docs []c
 	c.Oracle(fmt.Sprintf("agree json=%s yaml=%s", sig["json"], sig["yaml"]))
 }
 
+// c13Reseed: lib.go seeds case idx with NewRng(seed*1000003+idx) and the generator's state is additive,
+// so the streams of neighbouring cases are one splitmix sequence shifted by one position (neighbouring
+// cases would reuse each other's random numbers). The first output is well mixed: reseeding from it
+// gives every case an unrelated stream and keeps (seed, case) replays exact.
+func c13Reseed(rng *Rng) *Rng { return NewRng(rng.U64() ^ 0xD1B54A32D192ED03) }
+
 func c13Random(c *Case, rng *Rng) {
+	rng = c13Reseed(rng)
 	g := &c13Gen{rng: rng, c: c}
 	nhot := rng.Range(1, 3)
 	for i := 0; i < nhot; i++ {
